@@ -461,3 +461,198 @@ def reconfigure_rule(ctx, run, rule):
                              "a series of the instrument is computed from a configuration or a simulation that has been replaced",
                              file=str(prog.modules[(where or prog.classes[q]).module].path), line=(where.node if where else prog.classes[q].node).lineno, case="reconfigure"))
     run.functions |= {f for f in interp.visited if f in prog.functions}
+
+
+# ---------------------------------------------------------------------------------------------------------------- all short histories
+ALPHABET = {
+    "add(a)": 'd.add_clause("ka", c1)',
+    "add(b)": 'd.add_clause("kb", c2)',
+    "list(p1,k)": "d.list(p1, cost)",
+    "list(p2,0)": "d.list(p2, 0.0)",
+    "delist": "d.delist()",
+    "register(same,u2)": "d.register_underlier(name0, u2)",
+    "register(other,u3)": 'd.register_underlier("other", u3)',
+    "underlier=u2": "d.underlier = u2",
+    "ul()": "_ = d.ul()",
+    "payoff()": "_ = d.payoff()",
+    "spot": "_ = d.spot",  # only where the reference model says the derivative is listed at that point
+}
+
+
+def _model(seq, w):
+    """reference semantics of the registry operations: (clauses, underliers, pricer, cost)"""
+    clauses, uls, pricer, cost = [], [("underlier", w["u1"])], None, 0.0
+
+    def put(lst, k, v):
+        for i, (k0, _) in enumerate(lst):
+            if k0 == k:
+                lst[i] = (k, v)
+                return
+        lst.append((k, v))
+    for op in seq:
+        if op == "add(a)":
+            put(clauses, "ka", w["c1"])
+        elif op == "add(b)":
+            put(clauses, "kb", w["c2"])
+        elif op == "list(p1,k)":
+            pricer, cost = w["p1"], w["cost"]
+        elif op == "list(p2,0)":
+            pricer, cost = w["p2"], 0.0
+        elif op == "delist":
+            pricer, cost = None, 0.0
+        elif op in ("register(same,u2)", "underlier=u2"):
+            put(uls, "underlier", w["u2"])
+        elif op == "register(other,u3)":
+            put(uls, "other", w["u3"])
+    return clauses, uls, pricer, cost
+
+
+def _exhaustive_unit(prog, q, depth, first=None):
+    """all histories of at most `depth` operations on class q (restricted to those that start with `first`): (count, failures, visited)"""
+    import itertools
+    interp = Interp(prog, max_depth=20)
+    for k in list(interp.intrinsics):
+        if ".BaseDerivative." in k or ".BasePrimary." in k:
+            interp.intrinsics.pop(k)
+    interp.faithful_registry = True
+    stock = "pfhedge.instruments.primary.brownian.BrownianStock"
+    if stock not in prog.classes:
+        raise AnalysisError("anchor vanished: BrownianStock")
+    seqs = [s_ for n in range(1, depth + 1) for s_ in itertools.product(ALPHABET, repeat=n) if first is None or s_[0] == first]
+    short = q.rsplit(".", 1)[-1]
+    # the underliers are real instruments holding one simulated series each (x1, x2, x3)
+    w = dict(u1="u1", u2="u2", u3="u3", c1=Sym("c1", ("callable",)), c2=Sym("c2", ("callable",)), p1=Sym("p1", ("callable",)),
+             p2=Sym("p2", ("callable",)), cost=Sym("cost", ("float",)))
+    args = dict(stock=ClassRef(stock), x1=Sym("x1", ("tensor",)), x2=Sym("x2", ("tensor",)), x3=Sym("x3", ("tensor",)),
+                **{k_: v_ for k_, v_ in w.items() if k_ not in ("u1", "u2", "u3")})
+    head = ("def history(cls, stock, x1, x2, x3, c1, c2, p1, p2, cost):\n    u1 = stock()\n    u1.register_buffer(\"spot\", x1)\n    u2 = stock()\n"
+            "    u2.register_buffer(\"spot\", x2)\n    u3 = stock()\n    u3.register_buffer(\"spot\", x3)\n")
+    fi_s = FuncInfo("synthetic.setup", D + "base", ast.parse(head + "    return u1, u2, u3\n").body[0])
+    rs = [r for r in interp.explore(fi_s, [ClassRef(q)], dict(args), max_paths=20) if not r["raises"]]
+    if len(rs) != 1:
+        raise AnalysisError(f"{short}: setting up three simulated underliers has {len(rs)} non-raising paths")
+    objs0 = rs[0]["value"]  # built once: no operation of the alphabet writes to an underlier
+    args = dict(u1=objs0[0], u2=objs0[1], u3=objs0[2], **{k_: v_ for k_, v_ in w.items() if k_ not in ("u1", "u2", "u3")})
+    head = "def history(cls, u1, u2, u3, c1, c2, p1, p2, cost):\n"
+    base = {}
+    for un in ("u1", "u2"):
+        fi0 = FuncInfo("synthetic.base_payoff", D + "base", ast.parse(head + f"    return cls({un}).payoff_fn()\n").body[0])
+        r0 = [r for r in interp.explore(fi0, [ClassRef(q)], dict(args), max_paths=20) if not r["raises"]]
+        if len(r0) != 1:
+            raise AnalysisError(f"{short}: payoff_fn() of a new derivative has {len(r0)} non-raising paths")
+        base[un] = r0[0]["value"]
+    failures, total = [], 0
+    for seq in seqs:
+        if any(op == "spot" and _model(seq[:k_], w)[2] is None for k_, op in enumerate(seq)):
+            continue  # reading the price of an unlisted derivative is an error by contract
+        body = "".join(f"    {ALPHABET[op]}\n" for op in seq)
+        src = (head + "    d = cls(u1)\n    name0 = [n for n, _ in d.named_underliers()][0]\n" + body +
+               "    return d, list(d.named_clauses()), list(d.named_underliers()), d.ul(), d.underlier, d.pricer, d.cost, d.is_listed, d.payoff(), (d.spot if d.is_listed else None), (u1, u2, u3)\n")
+        fi = FuncInfo("synthetic.history_seq", D + "base", ast.parse(src).body[0])
+        try:
+            allres = interp.explore(fi, [ClassRef(q)], dict(args), max_paths=40)
+        except Unsupported as ex:
+            raise AnalysisError(f"history {' ; '.join(seq)} on {short}: {ex}")
+        total += 1
+        res = [r for r in allres if not r["raises"]]
+        clauses, uls_names, pricer, cost = _model(seq, w)
+        bad = []
+        if not res:
+            bad.append("ends in an exception on every path: " + "; ".join(sorted({str(getattr(r["raises"], "exc", r["raises"]))[:60] for r in allres}))[:120])
+        for r in res:
+            d, ncl, nul, ul0, attr, pr, co, listed, pay, spot, objs = r["value"]
+            uls = [(k_, objs[int(v_[1]) - 1]) for k_, v_ in uls_names]
+            if pricer is not None and spot != Op("call", (pricer, d)):
+                bad.append(f"spot is {str(spot)[:60]}, expected {pricer}(self)")
+            if [(k_, v_) for k_, v_ in ncl] != clauses:
+                bad.append(f"named_clauses() == {[k_ for k_, _ in ncl]}, expected {[k_ for k_, _ in clauses]}")
+            if [k_ for k_, _ in nul] != [k_ for k_, _ in uls] or any(a_ is not b_ for (_, a_), (_, b_) in zip(nul, uls)):
+                bad.append(f"named_underliers() == {[(k_, _which(v_, objs)) for k_, v_ in nul]}, expected {uls_names}")
+            if ul0 is not uls[0][1]:
+                bad.append(f"ul() is {_which(ul0, objs)}, expected {uls_names[0][1]}")
+            if attr is not uls[0][1]:
+                bad.append(f"the attribute `underlier` is {_which(attr, objs)}, expected {uls_names[0][1]}")
+            if pr is not pricer and pr != pricer:
+                bad.append(f"pricer is {pr}, expected {pricer}")
+            if co != cost:
+                bad.append(f"cost is {co}, expected {cost}")
+            if listed is not (pricer is not None):
+                bad.append(f"is_listed is {listed}")
+            want = base[uls_names[0][1]]
+            for _, cl_ in clauses:
+                want = Op("call", (cl_, d, want))
+            if pay != want:
+                bad.append("payoff() is not the registered clauses folded in order over payoff_fn() of the current underlier")
+        if bad:
+            failures.append((seq, sorted(set(bad))))
+    return total, failures, {f for f in interp.visited if f in prog.functions}
+
+
+def _exhaustive_worker(job):
+    """process-pool entry: the program is parsed again in the worker (the terms it returns are plain strings)"""
+    q, depth, first = job
+    from .source import Program
+    try:
+        total, failures, visited = _exhaustive_unit(Program(), q, depth, first)
+        return q, total, failures, sorted(visited), None
+    except (AnalysisError, Unsupported) as ex:
+        return q, 0, [], [], str(ex)
+
+
+def exhaustive_histories_rule(ctx, run, rule, depth, jobs=1):
+    """every sequence of at most `depth` operations from ALPHABET on a freshly created derivative of each class, judged against the reference
+    semantics of _model: afterwards named_clauses(), named_underliers(), ul(), the `underlier` attribute, pricer, cost, is_listed, spot and
+    payoff() are those of the model (payoff() = the registered clauses folded in order over payoff_fn() of the current first underlier)"""
+    prog = ctx.prog
+    for c in CLASSES:
+        if D + c not in prog.classes:
+            raise AnalysisError(f"anchor vanished: {D + c}")
+    run.require(rule, len(CLASSES))
+    per_class = {D + c: [0, []] for c in CLASSES}
+    if jobs <= 1:
+        for c in CLASSES:
+            total, failures, visited = _exhaustive_unit(prog, D + c, depth)
+            per_class[D + c] = [total, failures]
+            run.functions |= visited
+    else:
+        import concurrent.futures as cf
+        units = [(D + c, depth, op) for c in CLASSES for op in ALPHABET]
+        with cf.ProcessPoolExecutor(max_workers=jobs) as ex:
+            for q, total, failures, visited, err in ex.map(_exhaustive_worker, units):
+                if err:
+                    raise AnalysisError(err)
+                per_class[q][0] += total
+                per_class[q][1] += failures
+                run.functions |= set(visited)
+    grand = 0
+    for c in CLASSES:
+        q = D + c
+        short = c.rsplit(".", 1)[-1]
+        total, failures = per_class[q]
+        grand += total
+        failures.sort(key=lambda f: (len(f[0]), f[0]))
+        # a longer failing history that contains a shorter failing one adds nothing: report the minimal ones
+        minimal = []
+        for seq, bad in failures:
+            if not any(_subseq(m_, seq) for m_, _ in minimal):
+                minimal.append((seq, bad))
+        run.oblige(rule, f"{short}: all {total} histories of at most {depth} registry operations agree with the reference semantics", not failures,
+                   "; ".join(" -> ".join(s_) + ": " + b_[0] for s_, b_ in minimal[:3]))
+        for seq, bad in minimal[:4]:
+            where = prog.lookup_method(q, "ul")
+            run.fail(Finding(rule, where.qualname if where else q, f"{short} after [{' ; '.join(seq)}]: " + "; ".join(bad)[:260],
+                             "after this sequence of calls the derivative does not hand out what was registered",
+                             file=str(prog.modules[(where or prog.classes[q]).module].path), line=(where.node if where else prog.classes[q].node).lineno, case=" ; ".join(seq)))
+    run.notes.append(f"{rule}: {grand} call histories interpreted (alphabet of {len(ALPHABET)} operations, depth {depth}, {len(CLASSES)} classes)")
+
+
+def _which(o, objs):
+    for n_, x_ in zip(("u1", "u2", "u3"), objs):
+        if o is x_:
+            return n_
+    return str(o)[:30]
+
+
+def _subseq(a, b):
+    it = iter(b)
+    return all(x in it for x in a)
